@@ -627,7 +627,11 @@ func tailStr(s string, n int) string {
 }
 
 func writeEvidence(prop, tier string, seed uint64, prof *Profile, agg *WorkerReport, nStates, nGrams, violations, known int, wall float64, tc tierCfg) {
-	os.MkdirAll("/verif/evidence", 0o755)
+	evDir := os.Getenv("VERIF_EVIDENCE_DIR")
+	if evDir == "" {
+		evDir = "/verif/evidence"
+	}
+	os.MkdirAll(evDir, 0o755)
 	level := prof.Level
 	if level == "" {
 		level = "exploration"
@@ -682,7 +686,7 @@ func writeEvidence(prop, tier string, seed uint64, prof *Profile, agg *WorkerRep
 			"CometBFT is replaced by the scheduler calling ABCI (InitChain/FinalizeBlock/Commit) directly; restarts happen at block boundaries only",
 		}, prof.Assumptions...),
 	}
-	writeJSON(filepath.Join("/verif/evidence", prop+".json"), ev)
+	writeJSON(filepath.Join(evDir, prop+".json"), ev)
 }
 
 var realComponents = []string{"orbiter (entrypoint, keeper, components, controllers, msg/query servers, genesis) from the repo working tree", "simapp wiring (app.yaml, ibc.go, depinject)", "baseapp runTx (ante, gas metering, panic recovery, message rollback)", "IAVL stores over MemDB", "ibc-go v8.6.1 core + ICS-20 + 09-localhost client", "blockibc, fiat-tokenfactory, CCTP, Hyperlane core + warp, bank, auth"}
